@@ -305,12 +305,72 @@ def r03_5(run, model):
            witness="match t { (true, x) => .. } on t: (int32, int32) is accepted")
 
 
+DIAG_LEDGER = {
+    ("compile", "_hir_diagnostics"): "second, project-wide HIR lowering that only feeds the --dump-hir output; the same files were already resolved package by package in typecheck_packages, whose diagnostics are gated",
+}
+
+
+def r03_8(run, model):
+    from lib.mir import Mir
+    run.rule("R03.8", "no diagnostics are discarded on the compile/check/build path: wherever a callee returns a Diagnostics value (alone or in a "
+                      "tuple; resolved return types) the pipeline binds it to a name that is used afterwards (merged, tested or returned)")
+    mir = Mir(run.facts)
+    n = 0
+    seen = set()
+    for c in mir.calls:
+        rel = c["file"]
+        if not rel.startswith("crates/compiler/src/pipeline/") or "Diagnostics" not in c["ret"]:
+            continue
+        for f in model.fns(rel):
+            if f.body is None or not (f.node["sp"][0] <= c["line"] <= f.node["sp"][2]):
+                continue
+            for l in S.find(f.body, "Local"):
+                init = l.get("init")
+                if init is None:
+                    continue
+                pos = (init["sp"][0], init["sp"][1])
+                if init["k"] == "Try":
+                    pos = (init["expr"]["sp"][0], init["expr"]["sp"][1])
+                if pos != (c["line"], c["col"]) or (rel, l["sp"][0]) in seen:
+                    continue
+                seen.add((rel, l["sp"][0]))
+                # which component is the Diagnostics?
+                m = re.match(r"^(?:std::result::Result<)?\((.*)\)", c["ret"])
+                pat = l["pat"]
+                names = []
+                if m and pat["k"] == "PTuple":
+                    comps = S.type_args("T<" + m.group(1) + ">")[1]
+                    for comp, p_ in zip(comps, pat["elems"]):
+                        if "Diagnostics" in comp:
+                            names.append(p_)
+                elif pat["k"] == "PIdent" and re.search(r"(^|<)parser::Diagnostics(,|>|$)", c["ret"].replace("std::result::Result<", "<")) and "(" not in c["ret"]:
+                    names.append(pat)
+                for p_ in names:
+                    n += 1
+                    nm = p_["name"] if p_["k"] == "PIdent" else None
+                    discarded = p_["k"] == "PWild" or (nm is not None and nm.startswith("_"))
+                    used = False
+                    if nm and not discarded:
+                        used = any(x["k"] == "Path" and x["segs"] == [nm] and (x["sp"][0], x["sp"][1]) > (l["sp"][2], l["sp"][3]) for x in S.walk(f.body))
+                    led = DIAG_LEDGER.get((f.name, nm or "_"))
+                    ok = (not discarded and used) or led is not None
+                    run.ob("R03.8", f"{f.qual}|{strip_callee(c['callee'])} -> {nm or '_'}", ok, site(rel, l["sp"]),
+                           f"Diagnostics returned by {strip_callee(c['callee'])} is bound to `{nm or '_'}`" + (" and used" if used else " and never used") + (f"; ledger: {led}" if led else ""),
+                           witness="errors found by that stage (e.g. `package X not imported` from name resolution) never reach the has_errors() gate: an ill-formed program is accepted")
+    run.floor("diagnostics-returning calls bound in the pipeline", n, 12)
+
+
+def strip_callee(c):
+    return re.sub(r"<[^<>]*>", "", c).split("::")[-1]
+
+
 def run(run, model):
     run.try_rule(r03_1, model)
     run.try_rule(r03_2, model)
     run.try_rule(r03_3, model)
     run.try_rule(r03_4, model)
     run.try_rule(r03_5, model)
+    run.try_rule(r03_8, model)
     run.try_rule(c07.r07_4, model)
     run.try_rule(c07.r07_2, model)
     from rules import c08
